@@ -304,10 +304,15 @@ package jsonschema
 //@   atline[C01] "if schema.UnevaluatedProperties != nil && !anns.allProperties {" depschok uses stacklen,depsch: st.rs.draft == 1 ==> isold(schema) && isold(schema.DependentSchemas) && (forall k string {has(schema.DependentSchemas, k)} :: has(schema.DependentSchemas, k) && rvhas(instance, k) ==> vok(st, len(stk0) + 1, instance, schema.DependentSchemas[k]))
 //@   atline[C01,C02] "if schema.UnevaluatedProperties != nil && !anns.allProperties {" depsch7ok uses stacklen,depsch7: st.rs.draft == 0 ==> isold(schema) && isold(schema.DependencySchemas) && (forall k string {has(schema.DependencySchemas, k)} :: has(schema.DependencySchemas, k) && rvhas(instance, k) ==> vok(st, len(stk0) + 1, instance, schema.DependencySchemas[k]))
 //@   atline[C07] "anns.allProperties = true" unevpok uses stacklen,anns,unevpf,unevp: isold(schema) && new(anns) && newOrNil(anns.evaluatedProperties) && (forall k string {rvhas(instance, k)} :: rvhas(instance, k) ==> (has(anns.evaluatedProperties, k) && anns.evaluatedProperties[k]) || vok(st, len(stk0) + 1, rvget(instance, k), schema.UnevaluatedProperties))
+//@   atline[C07:t] "// arrays" cpT1 uses c1,c3,c4,c5,ctrue,ltrue,anns: new(anns) && newOrNil(anns.evaluatedIndexes) && newOrNil(anns.evaluatedProperties) && trueI(anns.evaluatedIndexes) && trueP(anns.evaluatedProperties) && (callerAnns != nil ==> trueI(callerAnns.evaluatedIndexes) && trueP(callerAnns.evaluatedProperties))
+//@   atline[C07:t] "// objects" cpT2 uses c1,c3,c4,c5,ctrue,ltrue,anns: new(anns) && newOrNil(anns.evaluatedIndexes) && newOrNil(anns.evaluatedProperties) && trueI(anns.evaluatedIndexes) && trueP(anns.evaluatedProperties) && (callerAnns != nil ==> trueI(callerAnns.evaluatedIndexes) && trueP(callerAnns.evaluatedProperties))
+//@   atline[C07:t] "if schema.PropertyNames != nil {" cpT3 uses c1,c3,c4,c5,ctrue,ltrue,anns: new(anns) && newOrNil(anns.evaluatedIndexes) && newOrNil(anns.evaluatedProperties) && trueI(anns.evaluatedIndexes) && trueP(anns.evaluatedProperties) && (callerAnns != nil ==> trueI(callerAnns.evaluatedIndexes) && trueP(callerAnns.evaluatedProperties))
+//@   atline[C07:t] "if st.rs.draft == draft7 {#3" cpT4 uses c1,c3,c4,c5,ctrue,ltrue,anns: new(anns) && newOrNil(anns.evaluatedIndexes) && newOrNil(anns.evaluatedProperties) && trueI(anns.evaluatedIndexes) && trueP(anns.evaluatedProperties) && (callerAnns != nil ==> trueI(callerAnns.evaluatedIndexes) && trueP(callerAnns.evaluatedProperties))
+//@   atline[C07:t] "if callerAnns != nil {" cpT uses c1,c3,c4,c5,ctrue,ltrue,anns: new(anns) && newOrNil(anns.evaluatedIndexes) && newOrNil(anns.evaluatedProperties) && trueI(anns.evaluatedIndexes) && trueP(anns.evaluatedProperties) && (callerAnns != nil ==> trueI(callerAnns.evaluatedIndexes) && trueP(callerAnns.evaluatedProperties))
 //@   atline[C01] "if callerAnns != nil {" cp6 uses samejv,shaped,p_props,p_req: okProps(schema, instance) && isold(schema) && isold(schema.Required) && okReq(schema, instance)
 //@   atreturn[C07] mergedflags uses anns,c1,c2: result == nil && callerAnns != nil && applies ==> new(anns) && callerAnns.allItems == (old(callerAnns.allItems) || anns.allItems) && callerAnns.allProperties == (old(callerAnns.allProperties) || anns.allProperties) && callerAnns.endIndex == ite(anns.endIndex > old(callerAnns.endIndex), anns.endIndex, old(callerAnns.endIndex))
-//@   atreturn[C07] mergedidx uses anns,c1,c3,c4,c5: result == nil && callerAnns != nil && applies ==> new(anns) && (forall k int {has(callerAnns.evaluatedIndexes, k)} :: (callerAnns.evaluatedIndexes != nil && has(callerAnns.evaluatedIndexes, k)) == (old(callerAnns.evaluatedIndexes != nil && has(callerAnns.evaluatedIndexes, k)) || (anns.evaluatedIndexes != nil && has(anns.evaluatedIndexes, k))))
-//@   atreturn[C07] mergedprops uses anns,c1,c3,c4,c5: result == nil && callerAnns != nil && applies ==> new(anns) && (forall k string {has(callerAnns.evaluatedProperties, k)} :: (callerAnns.evaluatedProperties != nil && has(callerAnns.evaluatedProperties, k)) == (old(callerAnns.evaluatedProperties != nil && has(callerAnns.evaluatedProperties, k)) || (anns.evaluatedProperties != nil && has(anns.evaluatedProperties, k))))
+//@   atreturn[C07:t] mergedidx uses anns,c1,c3,c4,c5: result == nil && callerAnns != nil && applies ==> new(anns) && (forall k int {has(callerAnns.evaluatedIndexes, k)} :: (callerAnns.evaluatedIndexes != nil && has(callerAnns.evaluatedIndexes, k)) == (old(callerAnns.evaluatedIndexes != nil && has(callerAnns.evaluatedIndexes, k)) || (anns.evaluatedIndexes != nil && has(anns.evaluatedIndexes, k))))
+//@   atreturn[C07:t] mergedprops uses anns,c1,c3,c4,c5: result == nil && callerAnns != nil && applies ==> new(anns) && (forall k string {has(callerAnns.evaluatedProperties, k)} :: (callerAnns.evaluatedProperties != nil && has(callerAnns.evaluatedProperties, k)) == (old(callerAnns.evaluatedProperties != nil && has(callerAnns.evaluatedProperties, k)) || (anns.evaluatedProperties != nil && has(anns.evaluatedProperties, k))))
 //@   atreturn[C01,C12] accepted uses samejv: result == nil && applies ==> jv(instance) == jv(inst0) && okType(schema, instance) && okConst(schema, instance) && okNum(schema, instance) && okStr(schema, instance) && okItems(schema, instance) && okProps(schema, instance) && okReq(schema, instance)
 //@   reject[C01] "type:" (schema.Type != "" && !tmatch(schema.Type, typeName(jv(instance)))) || (schema.Type == "" && !isnil(schema.Types) && (forall i int {schema.Types[i]} :: 0 <= i && i < len(schema.Types) ==> !tmatch(schema.Types[i], typeName(jv(instance)))))
 //@   reject[C01] "minimum:" isJNum(jv(instance)) && schema.Minimum != nil && jn(jv(instance)) < *schema.Minimum
@@ -339,9 +344,9 @@ package jsonschema
 //@   ensures[C07] noleak3 uses c1,c2,c3,c4,c5,anns: err != nil && callerAnns != nil ==> newOrNil(callerAnns.evaluatedIndexes) && newOrNil(old(callerAnns.evaluatedIndexes)) && (forall k int :: has(callerAnns.evaluatedIndexes, k) == old(has(callerAnns.evaluatedIndexes, k)))
 //@   ensures[C07] noleak4 uses c1,c2,c3,c4,c5,anns: err != nil && callerAnns != nil ==> newOrNil(callerAnns.evaluatedProperties) && newOrNil(old(callerAnns.evaluatedProperties)) && (forall k string :: has(callerAnns.evaluatedProperties, k) == old(has(callerAnns.evaluatedProperties, k)))
 //@   loopinv c1: callerAnns != nil ==> annsOwned(callerAnns)
-//@   loopinv[C07] ctrue uses c1,c3,c4,c5,anns: callerAnns != nil ==> trueI(callerAnns.evaluatedIndexes) && trueP(callerAnns.evaluatedProperties)
-//@   loopinv[C07] ltrue uses anns: new(anns) && newOrNil(anns.evaluatedIndexes) && newOrNil(anns.evaluatedProperties) && trueI(anns.evaluatedIndexes) && trueP(anns.evaluatedProperties)
-//@   ensures[C07] annsT uses c1,c3,ctrue,ltrue,anns: callerAnns != nil ==> trueI(callerAnns.evaluatedIndexes) && trueP(callerAnns.evaluatedProperties)
+//@   loopinv[C07:t] ctrue uses c1,c3,c4,c5,anns: callerAnns != nil ==> trueI(callerAnns.evaluatedIndexes) && trueP(callerAnns.evaluatedProperties)
+//@   loopinv[C07:t] ltrue uses anns: new(anns) && newOrNil(anns.evaluatedIndexes) && newOrNil(anns.evaluatedProperties) && trueI(anns.evaluatedIndexes) && trueP(anns.evaluatedProperties)
+//@   ensures[C07:t] annsT uses c1,c3,ctrue,ltrue,anns: callerAnns != nil ==> trueI(callerAnns.evaluatedIndexes) && trueP(callerAnns.evaluatedProperties)
 //@   loopinv c2: callerAnns != nil ==> callerAnns.allItems == old(callerAnns.allItems) && callerAnns.endIndex == old(callerAnns.endIndex) && callerAnns.allProperties == old(callerAnns.allProperties)
 //@   loopinv c3: callerAnns != nil ==> callerAnns.evaluatedIndexes == old(callerAnns.evaluatedIndexes) && callerAnns.evaluatedProperties == old(callerAnns.evaluatedProperties)
 //@   loopinv c4: callerAnns != nil ==> newOrNil(callerAnns.evaluatedIndexes) && newOrNil(old(callerAnns.evaluatedIndexes)) && (forall k int :: has(callerAnns.evaluatedIndexes, k) == old(has(callerAnns.evaluatedIndexes, k)))
